@@ -56,6 +56,9 @@ func c13Addr(s string) common.Address {
 	return a
 }
 
+// c13RawData (when set for a transaction) replaces the data member of the binary form by arbitrary JSON bytes.
+var c13RawData = map[*hsTx][]byte{}
+
 func c13Binary(tx *hsTx, sig []byte) []byte {
 	m := c13V3{From: c13Addr(tx.from), To: c13Addr(tx.to), Signature: sig, DataType: tx.dataType}
 	m.Version.Value = 3
@@ -74,6 +77,9 @@ func c13Binary(tx *hsTx, sig []byte) []byte {
 	}
 	if tx.data != nil {
 		m.Data = []byte(tx.data.JSON(nil))
+	}
+	if raw, ok := c13RawData[tx]; ok {
+		m.Data = raw
 	}
 	bs, err := codec.MarshalToBytes(&m)
 	if err != nil {
@@ -111,6 +117,32 @@ func c13Submit(tx *hsTx, sig []byte, binary bool) (accepted bool, stage string) 
 	return true, "accepted"
 }
 
+// c13Forge makes, from the PUBLIC key q alone, a signature (r, s, v) and the digest z it is valid for:
+// R = u1*G + u2*Q, r = R.x, s = r/u2, z = u1*s (the textbook existential forgery; z follows from the choice of
+// u1, u2 and cannot be chosen - except z = 0 with u1 = 0).
+func c13Forge(q hsPt, u1, u2 *big.Int) (sig []byte, z []byte, ok bool) {
+	R := hsMul(u2, q)
+	if u1.Sign() != 0 {
+		R = hsAdd(hsMul(u1, hsG), R)
+	}
+	if R.inf {
+		return nil, nil, false
+	}
+	r := new(big.Int).Mod(R.x, hsN)
+	if r.Sign() == 0 || r.Cmp(R.x) != 0 {
+		return nil, nil, false
+	}
+	s := new(big.Int).Mul(r, new(big.Int).ModInverse(u2, hsN))
+	s.Mod(s, hsN)
+	if s.Sign() == 0 {
+		return nil, nil, false
+	}
+	zi := new(big.Int).Mul(u1, s)
+	zi.Mod(zi, hsN)
+	sig = append(append(hsPad32(r), hsPad32(s)...), byte(R.y.Bit(0)))
+	return sig, hsPad32(zi), true
+}
+
 type c13Variant struct {
 	name string
 	sig  []byte
@@ -127,12 +159,35 @@ func c13Twin(sig []byte) []byte {
 
 var c13VariantNames = []string{"bitflip-s", "bitflip-v", "bitflip-r", "vflag", "other-id-sibling", "replayed-on-sibling", "replayed-on-sibling", "malleable-twin",
 	"other-key", "len64-noV", "component-out-of-range", "contract-sender", "other-id-random", "swap-r-s", "wrong-length",
-	"empty", "random-65", "genuine"}
+	"empty", "random-65", "genuine", "forged-for-digest-zero", "forged-for-some-digest", "sender-signs-zero-digest", "sender-signs-hash-of-nothing"}
 
 func c13DrawVariant(rt *rapid.T, base *hsTx, genuine []byte) c13Variant {
+	return c13DrawVariantOf(rt, rapid.SampledFrom(c13VariantNames).Draw(rt, "variant"), base, genuine)
+}
+
+func c13DrawVariantNamed(rt *rapid.T, name string, base *hsTx) c13Variant {
+	return c13DrawVariantOf(rt, name, base, base.sign())
+}
+
+func c13DrawVariantOf(rt *rapid.T, name string, base *hsTx, genuine []byte) c13Variant {
 	sig := append([]byte{}, genuine...)
-	name := rapid.SampledFrom(c13VariantNames).Draw(rt, "variant")
 	switch name {
+	case "forged-for-digest-zero", "forged-for-some-digest":
+		// made from the sender's public key alone: valid for digest 0 / for a digest that follows from the choice
+		u1 := new(big.Int)
+		if name == "forged-for-some-digest" {
+			u1 = new(big.Int).SetBytes(rapid.SliceOfN(rapid.Byte(), 32, 32).Draw(rt, "u1"))
+			u1.Mod(u1, hsN)
+		}
+		u2 := big.NewInt(int64(rapid.IntRange(1, 1<<30).Draw(rt, "u2")))
+		if f, _, ok := c13Forge(base.key.pub, u1, u2); ok {
+			return c13Variant{name, f, base}
+		}
+		return c13Variant{"genuine", sig, base}
+	case "sender-signs-zero-digest":
+		return c13Variant{name, hsSignRSV(base.key, make([]byte, 32)), base}
+	case "sender-signs-hash-of-nothing":
+		return c13Variant{name, hsSignRSV(base.key, hsSHA3(nil)), base}
 	case "other-key":
 		// another key signs the transaction that claims base.from as sender
 		other := hsDrawKey(rt, "otherKey")
@@ -333,6 +388,64 @@ var c13Hashes = [][]byte{
 	hsPad32(big.NewInt(1)),
 }
 
+// c13NoIDCase: a transaction in stored binary form (as peers deliver it and blocks hold it) whose data is valid JSON
+// that the id serialization does not define (a boolean, a number, null inside a list...): it has no id, so no
+// signature is "the sender's signature over its id" and Verify must refuse whatever signature it carries -
+// in particular one made from the public key alone for the digest value an absent id might be read as.
+func c13NoIDCase(rt *rapid.T, rec *ev.Rec) {
+	tx := hsGenTx(rt, hsTxOpt{variants: false, maxDepth: 1})
+	dt := "call"
+	tx.dataType = &dt
+	tx.set("dataType", hsS(dt))
+	raw := rapid.SampledFrom([]string{
+		`{"method":"transfer","params":{"_to":"hx0000000000000000000000000000000000000bad","_value":"0x100","_all":true}}`,
+		`{"method":"setFlags","params":{"flags":[false]}}`,
+		`{"method":"f","params":{"n":1}}`,
+		`{"method":"f","params":{"x":1.5}}`,
+		`[true]`,
+		`true`,
+	}).Draw(rt, "rawData")
+	c13RawData[tx] = []byte(raw)
+	defer delete(c13RawData, tx)
+	// is it really id-less for goloop? (the reference has no say about JSON kinds outside the format)
+	probe, err := transaction.NewTransaction(c13Binary(tx, tx.sign()))
+	if err != nil {
+		rec.Case("noid rejected-at-parse data="+raw, false, "path-binary-noid", "noid-reject-parse")
+		return
+	}
+	if len(probe.ID()) != 0 {
+		// goloop defines an id for this data after all: nothing to decide here
+		rec.Case("noid has-id data="+raw, false, "path-binary-noid", "noid-has-id")
+		return
+	}
+	name := rapid.SampledFrom([]string{"forged-for-digest-zero", "forged-for-digest-zero", "forged-for-some-digest", "sender-signs-zero-digest",
+		"sender-signs-hash-of-nothing", "sender-signs-reference-id-of-other-data", "random-65", "empty"}).Draw(rt, "noidVariant")
+	var sig []byte
+	switch name {
+	case "sender-signs-reference-id-of-other-data":
+		sig = tx.sign()
+	case "random-65":
+		sig = rapid.SliceOfN(rapid.Byte(), 65, 65).Draw(rt, "rnd")
+		sig[64] &= 1
+	case "empty":
+		sig = []byte{}
+	default:
+		sig = c13DrawVariantNamed(rt, name, tx).sig
+	}
+	desc := fmt.Sprintf("path-binary-noid variant=%s sig=%x data=%s %s", name, sig, raw, tx.desc())
+	rec.Case(desc, c13ReachesRecovery(sig), "path-binary-noid", "noid-variant-"+name)
+	t, err := transaction.NewTransaction(c13Binary(tx, sig))
+	if err != nil {
+		rec.Label("noid-reject-parse")
+		return
+	}
+	if err := t.Verify(); err == nil {
+		rt.Fatalf("C13 violated: a transaction without an id (data %s is outside the id serialization, ID()=%x) from %s is accepted by Verify with signature %x (%s): nobody signed an id with the sender's key",
+			raw, t.ID(), tx.from, sig, name)
+	}
+	rec.Label("noid-reject-verify")
+}
+
 func c13PubBytes(pk *crypto.PublicKey) []byte { return pk.SerializeUncompressed() }
 
 func c13SignRecoverCase(rt *rapid.T, rec *ev.Rec) {
@@ -476,5 +589,8 @@ func TestC13(t *testing.T) {
 	})
 	t.Run("txbinary", func(t *testing.T) {
 		ev.Check(t, 250, 3500, func(rt *rapid.T) { c13TxCase(rt, rec, true) })
+	})
+	t.Run("txnoid", func(t *testing.T) {
+		ev.Check(t, 120, 2000, func(rt *rapid.T) { c13NoIDCase(rt, rec) })
 	})
 }
